@@ -79,6 +79,12 @@ def cases(tier: str, seed: int) -> List[Dict[str, Any]]:
             for entry in ("raw", "SGD", "AdamW"):
                 out.append({"st": st, "form": "groups", "lrkind": "float", "wd": 0.01, "mix": mix, "indep": 1,
                             "entry": entry, "seed": seed, "frozen": True})
+        # groups whose parameters all have the SAME tag and shape (same lr scale): still one group per parameter
+        if sum(g[0] for g in st) >= 2:
+            for entry in ("raw", "SGD", "AdamW"):
+                for mix in (0, 1):
+                    out.append({"st": st, "form": "groups", "lrkind": "float", "wd": 0.01, "mix": mix, "indep": 1,
+                                "entry": entry, "seed": seed, "uniform": True})
         # distinct Parameter objects that share storage (a readout tied to the embedding under another tag) and
         # zero-element parameters: every input parameter OBJECT still gets exactly one group
         if sum(g[0] for g in st) >= 2:
@@ -156,6 +162,8 @@ def run_case(case: Dict[str, Any]) -> Dict[str, Any]:
         ident += "|frozen_params"
     if case.get("shared"):
         ident += "|shared=" + case["shared"]
+    if case.get("uniform"):
+        ident += "|same_scale_params"
     one_shot = case.get("pform", "list") in ("generator", "iter")
     if one_shot:
         ident += "|group_params=" + case["pform"]
@@ -180,6 +188,8 @@ def run_case(case: Dict[str, Any]) -> Dict[str, Any]:
         ps = []
         for _ in range(npar):
             shape, tag = SHAPES[idx % len(SHAPES)], TAGS[idx % len(TAGS)]
+            if case.get("uniform"):
+                shape, tag = (6,), "bias"
             data = torch.randn(shape, dtype=torch.float64, generator=gen) + 0.5
             if case.get("shared") == "empty" and idx < 2:
                 data = torch.empty((0, 3) if idx == 0 else (0, 5), dtype=torch.float64)  # zero rows, non-zero fan-in
